@@ -106,9 +106,10 @@ fn run_flatten(sc: &Value) -> Value {
         Ok(f) => {
             let (ops, _) = ops_1024(&f);
             json!({"id": sc["id"], "fam": "flatten", "den": sc["den"], "ops": sc["ops"], "tol": sc["tol"],
-                   "outcome": "ok", "out": ops, "winding_kept": true})
+                   "rule": sc["rule"], "out_rule": format!("{:?}", f.winding),
+                   "outcome": "ok", "out": ops})
         }
-        Err(_) => json!({"id": sc["id"], "fam": "flatten", "den": sc["den"], "ops": sc["ops"], "tol": sc["tol"], "outcome": "panic", "out": []}),
+        Err(_) => json!({"id": sc["id"], "fam": "flatten", "den": sc["den"], "ops": sc["ops"], "tol": sc["tol"], "rule": sc["rule"], "out_rule": "?", "outcome": "panic", "out": []}),
     }
 }
 
